@@ -38,6 +38,12 @@ CLAIMED = {
  "C17": ("effect-order path analysis (schema acquisition before any file mutation, publication gated by control, Create ordering under file-exists valuations), structural symmetry check of the descriptor comparisons, nil-fact analysis of settings dereferences",
          "Decides that no handle entry point (except Drop/Create) mutates a file on a path without a successfully acquired schema, that a loaded schema is published only after a successful control, that Create assigns settings and overwrites the schema file only after the compatibility check and writes a new schema file only when none exists, that the descriptor comparisons are symmetric, and that the async settings pointer is only dereferenced where known non-nil. Behaviour after a live settings switch is NOT decided beyond that (two known findings: the flusher's unguarded dereference).",
          "Trusts go/ssa and the effect tables; file-exists and errors.Is outcomes are explored as valuations.", "DESIGN.md 4 C17"),
+ "C05": ("writer-local open/rename protocol analysis over all call paths; commit/write-before-ack path analysis; reachability of object reads from the integrity control",
+         "Decides three structural necessary conditions of crash safety, NOT the enumeration of crash prefixes: (1) every function that opens a persistent file (object or schema) for writing returns success only after renaming (write-to-temporary + rename, never truncate in place); (2) a synchronous write is acknowledged only after the object file was written and the schema committed; (3) whether the integrity control can see object content at all (it cannot: known finding, stale index entry after a crash inside an update).",
+         "Trusts go/ssa and the effect tables; process-crash model (completed system calls persist in order); torn writes inside one system call are out of scope.", "DESIGN.md 4 C05"),
+ "C12": ("parity rules: cache-before-disk path analysis for membership/lookup answers, error-class closure comparison of the two search evaluators, pattern-error flow, operator-guard table agreement, single-reader checks for the compression suffix / root / naming switch, finite evaluation of the file namer",
+         "Decides four parity conditions necessary for configuration independence: Exist/Get/GetByUUID consult the cache before the object file when caching or async is on; the indexed and the scan evaluator report the same error classes, return pattern errors and cannot reach the operator panic (callers validate against the same literal set); the compressed suffix is consulted only by namer, writer and reader and the namer appends it iff Compress; root and lower-case switch have one reader. Equality of whole observation traces across configurations is not decided.",
+         "Trusts go/ssa, the effect tables, and the finite evaluator's model of fmt.Sprintf for %s-only formats.", "DESIGN.md 4 C12"),
 }
 
 NOT_BUILT = "check not built yet in this round (planned, see DESIGN.md section 4)"
